@@ -4,7 +4,8 @@ from ..stage import LineStage, replay_line
 from .common import *
 from . import c03
 
-ARTEFACTS = ["G1-consts"]
+ARTEFACTS = ["G1-consts", "G13-traits"]
+EXTRA_PROPS = [("B3.Props.C16T", "B3/Props/C16T.lean")]   # theorems about the code translated from the sources
 RULE = ("histories over the trait methods (Update, Reset, FixedOutput, FixedOutputReset, Digest::finalize, ExtendableOutput, "
         "ExtendableOutputReset + XofReader, KeyInit::new / new_from_slice with keys of every length 0..40, Mac finalize / verify_slice "
         "with good, bit-flipped, truncated and extended tags) interleaved with the inherent methods on the same registers, each followed "
@@ -45,6 +46,15 @@ def trait_history(rng, plat):
             ops += ["H fin a", "H cnt a"]
     ops += ["H cnt a", "T fin a", "H fin a"]
     return Script(ops, tags=(plat, "traits"), nontrivial=nt)
+
+
+def offset_reset_script(rng, plat):
+    """a hazmat input offset, then a reset through the trait impls, then a subtree: the trait reset must be the inherent one"""
+    off = 1024 * rng.choice([1, 2, 4, 1 << 20, 1 << 40])
+    pre = rng.choice([[], [f"H upd a {pat(rng.choice([1, 1024]), rng)}"]])
+    how = rng.choice([["T reset a"], ["T reset a"], ["H reset a"]])
+    ops = [f"P plat {plat}", f"H new a {mode_tok(rng)}", f"H off a {off}"] + pre + how + ["H cnt a", f"H upd a {pat(rng.choice([10, 1024, 3000]), rng)}", "H cnt a", "H fin a", "H cvnr a"]
+    return Script(ops, tags=(plat, "offset-reset"), nontrivial=True)
 
 
 def mac_script(rng):
@@ -90,6 +100,7 @@ def stages(tier, seed, witness_search=False):
         n *= 3
     scripts = [trait_history(rng, PLATFORMS[i % 5]) for i in range(n)] + [mac_script(rng) for _ in range(40)] + keylen_scripts(rng)
     scripts += [guts_script(rng, PLATFORMS[i % 5]) for i in range(n // 2)]
+    scripts += [offset_reset_script(rng, PLATFORMS[i % 5]) for i in range(40)]
     # Mac::verify_slice with the right tag, a flipped bit, truncated and extended tags: the tag comes from a first run,
     # so these are generated as (script, tag) pairs by running the model offline is not possible here; use fixed vectors:
     # key = 00..1f, empty message
